@@ -597,6 +597,16 @@ def main():
     a, rc, err = vf.run_lines([harness], cases, shards=16)
     b, rc2, err2 = vf.run_lines(mcmd, cases, shards=16)
     name = "unix/signal.c = Model/Signal.v"
+    if thorough and not chk.replay:
+        # monitor-only extra: start/stop churn under a storm of signals from a signal-masked helper thread; fails
+        # only when the main thread makes no progress for 3 s (a handler waiting for the lock its thread holds)
+        st, _, _ = vf.run_lines([harness], ["stress 30000"] * 4, shards=4)
+        chk.cov["stress_runs"] = st
+        for l in st:
+            if not l.startswith("stress ok") or not l.rstrip().endswith("lk0"):
+                chk.violation("%s: start/stop under a storm of signals: %s" % (name, l[:120]),
+                              {"kind": "monitor", "obligation": name, "case": "stress 30000", "impl": l}, found_input=True)
+                break
     if len(a) != len(cases) or len(b) != len(cases):
         chk.violation("%s: harness/model produced %d/%d lines for %d cases" % (name, len(a), len(b), len(cases)),
                       {"kind": "correspondence", "obligation": name, "stderr": (err or "")[-500:] + (err2 or "")[-500:]},
